@@ -85,3 +85,82 @@ def repeat_arm_rule(ctx, drv):
     if ass:
         return False, f"the index variable is assigned on the way from the REPEAT arm back to the interpreter call (bb{ass[0][0]})"
     return True, f"REPEAT arm (bb{tgt}) returns to Interpreter::parse without assigning the index variable _{idx}"
+
+
+def def_of(fn, bi, local, depth=10):
+    """the defining statement (block, stmt) of `local` found by walking backwards through straight-line predecessors"""
+    cfg = M.CFG(fn)
+    b = bi
+    for _ in range(depth):
+        for s in reversed(fn["blocks"][b]["stmts"]):
+            if s[0] == "assign" and s[1]["l"] == local and not s[1]["p"]:
+                return b, s
+        preds = cfg.pred[b]
+        if len(preds) != 1:
+            return None, None
+        b = preds[0]
+        # a call terminator defining the local
+        t = M.term(fn["blocks"][b])
+        if t[0] == "call" and t[3]["l"] == local and not t[3]["p"]:
+            return b, ("call", t)
+    return None, None
+
+
+def trace_value(fn, bi, operand, depth=12):
+    """follow copies/moves of an operand back to its producing rvalue or call: returns a list describing the chain"""
+    chain = []
+    cur_b = bi
+    op = operand
+    for _ in range(depth):
+        if op[0] == "const":
+            chain.append(("const", op[1]))
+            return chain
+        pl = op[1]
+        if pl["p"]:
+            chain.append(("place", pl))
+            if len(pl["p"]) == 1 and pl["p"][0] != "deref" and pl["p"][0][0] == "f" and pl["p"][0][1] == 0:
+                b, s = def_of(fn, cur_b, pl["l"])
+                if s is not None and s[0] != "call" and s[2][0] == "bin" and s[2][1].endswith("O"):
+                    chain.append(("rvalue", s[2]))
+                    return chain
+            # deref of a local: continue with that local
+            if pl["p"] == ["deref"]:
+                b, s = def_of(fn, cur_b, pl["l"])
+                if s is None:
+                    return chain
+                if s[0] == "call":
+                    chain.append(("call", s[1][1].get("def") or "indirect", s[1]))
+                    return chain
+                cur_b = b
+                rv = s[2]
+                if rv[0] in ("use",):
+                    op = rv[1]
+                    continue
+                chain.append(("rvalue", rv))
+                return chain
+            return chain
+        b, s = def_of(fn, cur_b, pl["l"])
+        if s is None:
+            chain.append(("local", pl["l"]))
+            return chain
+        if s[0] == "call":
+            chain.append(("call", s[1][1].get("def") or "indirect", s[1]))
+            return chain
+        cur_b = b
+        rv = s[2]
+        if rv[0] == "use":
+            op = rv[1]
+            continue
+        if rv[0] == "ref":
+            chain.append(("ref", rv[1]))
+            if not rv[1]["p"]:
+                op = ["copy", rv[1]]
+                continue
+            return chain
+        chain.append(("rvalue", rv))
+        if rv[0] == "bin" and rv[1] in ("AddO", "SubO", "Add", "Sub"):
+            return chain
+        if rv[0] == "use":
+            continue
+        return chain
+    return chain
